@@ -380,7 +380,7 @@ class ExecMixin:
                 cargs = list(tup.variants.get(0, ())) if isinstance(tup, VAdt) else []
                 return self.call_closure(st, site, cv if isinstance(cv, VRef) else tv, cargs)
         if target.get("local") and target["key"] in self.fx.fns:
-            return self.call_local(st, site, target["key"], args)
+            return self.call_local(st, site, target["key"], args, gargs=target.get("args"))
         if func.get("local") and func["key"] in self.fx.fns and "trait" not in func:
             return self.call_local(st, site, func["key"], args)
         # trait method on a concrete crate type that did not resolve statically (generic caller):
@@ -409,11 +409,12 @@ class ExecMixin:
             return [(st, self.symval(st, dty, self.fresh("ret")))]
         return [(st, VUnknown(None, self.fresh("ret")))]
 
-    def call_local(self, st, site, key, args, tag=None):
+    def call_local(self, st, site, key, args, tag=None, gargs=None):
         frame = site[0] if site else None
         fn = self.fx.fns[key]
         body = fn["body"]
         nf = self.new_frame(fn, body, frame, tag=tag)
+        nf.gargs = gargs
         # recursion guard
         p = 0
         if frame is not None and frame.depth > 40:
@@ -1031,7 +1032,7 @@ class ExecMixin:
 
 
 class Frame_:
-    __slots__ = ("fn", "body", "cells", "key", "fid", "depth", "ctxname", "persistent")
+    __slots__ = ("fn", "body", "cells", "key", "fid", "depth", "ctxname", "persistent", "gargs")
 
     def __init__(self, fn, body, fid, depth, ctxname, persistent=False):
         self.fn = fn
@@ -1042,3 +1043,4 @@ class Frame_:
         self.ctxname = ctxname
         self.cells = [(fid, i) for i in range(len(body["locals"]))]
         self.persistent = persistent
+        self.gargs = None            # generic arguments of the instance being analysed ([Self, ...] for a trait default method)
